@@ -154,7 +154,7 @@ pub fn dispatch(ctx: &mut Ctx, op: &str, call: &Value) -> Option<Value> {
         "construct" => construct(call),
         "new_boxed" => new_boxed_op(call),
         "b_new" => {
-            ctx.bld = Some(Builder::new());
+            ctx.bld = Some(if call["default"].as_bool().unwrap_or(false) { Builder::default() } else { Builder::new() });
             ctx.built = None;
             out::unit()
         }
